@@ -160,7 +160,7 @@ def scaled_mol(mol, mspec, lam):
 
 @st.composite
 def st_sdmx_case(draw):
-    return {"mol": draw(G.st_mol(max_atoms=3, max_elec=18, levels=(0,), bases=("sto-3g", "6-31g", "6-31g*"))),
+    return {"mol": draw(G.st_mol(max_atoms=3, max_elec=18, levels=(0,), bases=("sto-3g", "6-31g", "6-31g*", "cc-pvdz"))),
             "sdmx": draw(G.st_sdmx()), "dm": draw(G.st_dm()), "lam": draw(st_lambda()),
             "npts": draw(st.integers(8, 40)), "seed": draw(st.integers(0, 2**31 - 1))}
 
